@@ -92,6 +92,10 @@ def check(ctx, report):
                 used_reviews.add(rk)
                 report.sample({'rule': 'C02.R4', 'site': fname, 'operation': 'int', 'verdict': 'every int() argument is a group of a class level pattern that matches digits only'})
                 continue
+            if what == 'key' and e.endswith('KeyError') and fname.startswith('LDAP') and ldap_keys_decided(ctx):
+                used_reviews.add(rk)
+                report.sample({'rule': 'C02.R4', 'site': fname, 'operation': 'key', 'verdict': 'no KeyError for any evaluated protocolOp alternative (sa/ldapbridge.py)'})
+                continue
             if rk in reviewed:
                 used_reviews.add(rk)
                 if rk in TABULATED:
@@ -141,6 +145,17 @@ def check(ctx, report):
     constructed_objects(ctx, report)
     report.floor('C02.R1', 300, 'concrete parsable classes')
     report.floor('C02.R4', 25, 'risky operation sites')
+
+
+def ldap_keys_decided(ctx):
+    """the keys the LDAP message parsers index the loaded message with exist for every protocolOp alternative the parsers let
+    through: decided by evaluating them over a family of alternatives whose field tables lack the keys of the others"""
+    import json as _json
+    from ..ldapbridge import evaluate_messages
+    with open(os.path.join(HERE, 'specs', 'opp.json')) as fh:
+        oid = _json.load(fh)['constants']['starttls_oid']
+    r = evaluate_messages(ctx, oid)
+    return r['evaluated'] and not any(k.startswith('keys[') for k in r['problems'])
 
 
 def int_args_are_digit_groups(ctx, f):
@@ -590,6 +605,16 @@ def eager_decoding(ctx, report):
         report.error('C02.R4: LDAPMessageParsableBase._parse_asn1 vanished')
         return
     report.touch(f)
+    from ..ldapbridge import evaluate
+    br = evaluate(ctx)
+    if br['evaluated']:
+        # decided by evaluating the bridge against the library model: an error raised by .native must surface inside
+        report.count('C02.R4', br['runs'])
+        for aspect in ('eager', 'other', 'ok'):
+            if aspect in br['problems']:
+                report.add('C02.R4', f.construct + ('@eager-decode' if aspect == 'eager' else '@bridge[%s]' % aspect), br['problems'][aspect])
+        return
+    report.undecided.append('C02.R4: the LDAP bridge left the subset the evaluation understands (%s); decided on its syntax' % br['why'])
     ok = False
     for t in [n for n in ast.walk(f.node) if isinstance(n, ast.Try)]:
         loaded = set()
